@@ -72,6 +72,12 @@ def run_one(s):
     r = watched(lambda: len(d2.sample_random_uniform(d=2.0, params=U.mk_params(names, rows[:1]))), 6)
     tr["usercount"] = r[1] if r[0] == "ok" else -1
     tr["usercount_exc"] = "" if r[0] == "ok" else (r[1] if len(r) > 1 else "hang")
+    # a factor of a product gets a user-set volume AFTER the product's volume was asked: the product follows its factors
+    tr["factorvol"], tr["factorvol_exc"] = [], "none"
+    if e["k"] == "prod" and not (U.free_vars(e["l"]) & set(U.space_vars(e["r"]))):
+        r = watched(lambda: (dom.domain_a.set_volume(3.0), dom.volume(U.mk_params(names, rows)))[1])
+        tr["factorvol"] = fxv(r[1], VS) if r[0] == "ok" else []
+        tr["factorvol_exc"] = "" if r[0] == "ok" else (r[1] if len(r) > 1 else "hang")
     # density sampling counts at one parameter row
     tr["counts"] = []
     row0 = rows[:1]
